@@ -23,7 +23,8 @@ Definition cty_eqb (a b : cty) : bool :=
 Definition unop_eqb (a b : unop) : bool :=
   match a, b with ONeg, ONeg | OBNot, OBNot => true | _, _ => false end.
 Definition binop_n (o : binop) : N :=
-  match o with OAdd => 0 | OSub => 1 | OMul => 2 | OShl => 3 | OShr => 4 | OAnd => 5 | OOr => 6 | OXor => 7 end.
+  match o with OAdd => 0 | OSub => 1 | OMul => 2 | OShl => 3 | OShr => 4 | OAnd => 5 | OOr => 6 | OXor => 7
+               | ODiv => 8 | ORem => 9 end.
 Definition cmpop_n (o : cmpop) : N :=
   match o with CEq => 0 | CNe => 1 | CLt => 2 | CLe => 3 | CGt => 4 | CGe => 5 end.
 Fixpoint sval_eqb (a b : sval) : bool :=
@@ -220,17 +221,27 @@ Definition store_ok (sh : shape) (rest : list event) : bool :=
   | _, _ => false
   end.
 
+(* EvEnter events only mark that a translated helper (a static function of the wrapper file,
+   isal_self_tests) was executed in line: its own reads / writes / calls follow as events *)
+Definition no_enter (tr : list event) : list event := filter (fun e => negb (is_enter e)) tr.
+Definition enters_of (f : N) (tr : list event) : list event :=
+  filter (fun e => match e with EvEnter g _ => g =? f | _ => true end) tr.
+
 (* exactly one internal call, arguments passed through, result delivered as documented *)
 Definition shape_ok (sh : shape) (r : option sval) (tr : list event) : bool :=
-  match tr with
-  | EvCall f args :: rest =>
-      negb (sh_inline sh) && (f =? sh_callee sh) && svals_eqb args (sh_args sh) &&
-      store_ok sh rest && ret_ok (sh_ret sh) (sh_callee sh) r
-  | EvEnter f args :: rest =>
-      sh_inline sh && (f =? sh_callee sh) && svals_eqb args (sh_args sh) &&
-      ret_ok (sh_ret sh) (sh_callee sh) r
-  | _ => false
-  end.
+  if sh_inline sh then
+    match enters_of (sh_callee sh) tr with
+    | EvEnter f args :: rest =>
+        (f =? sh_callee sh) && svals_eqb args (sh_args sh) && ret_ok (sh_ret sh) (sh_callee sh) r
+    | _ => false
+    end
+  else
+    match no_enter tr with
+    | EvCall f args :: rest =>
+        (f =? sh_callee sh) && svals_eqb args (sh_args sh) &&
+        store_ok sh rest && ret_ok (sh_ret sh) (sh_callee sh) r
+    | _ => false
+    end.
 
 Fixpoint any_true (l : list bool) : bool := match l with [] => false | b :: r => b || any_true r end.
 (* is code c documented for one of the parameters flagged in bs *)
@@ -286,20 +297,13 @@ Definition legacy_ok (T : ftab) (sh : shape) (l : N) : bool :=
   | Some d =>
       match entry_tree T d with
       | Leaf r (EvCall f args :: rest) =>
-          negb (sh_inline sh) && (f =? sh_callee sh) && svals_eqb args (arg_keys 0 (f_params d)) &&
+          (f =? sh_callee sh) && svals_eqb args (arg_keys 0 (f_params d)) &&
           (Nat.eqb (length args) (length (sh_args sh))) &&
           match rest with [] => true | _ => false end &&
           match r with
           | None => true
           | Some v => sval_eqb v (SKey (KExt f 0)) || sval_eqb v (SConst 0)
           end
-      | Leaf r (EvEnter f args :: rest) =>
-          sh_inline sh && (f =? sh_callee sh) && svals_eqb args (arg_keys 0 (f_params d)) &&
-          (Nat.eqb (length args) (length (sh_args sh)))
-      | Node c a b =>
-          (* a legacy body that only forwards the decision of an inlined helper: same tree as
-             a direct call of the helper *)
-          false
       | _ => false
       end
   | None => false
